@@ -934,5 +934,8 @@ fn kex_end(w: &mut World, op: &Value) -> R<Value> {
     } else {
         w.bump("probe.sm2.kex.aborted");
     }
+    // the objects stay alive: a scheduler may run the protocol again on the same pair
+    w.objs.kex.insert(gs(op, "a")?.to_string(), a);
+    w.objs.kex.insert(gs(op, "b")?.to_string(), b);
     Ok(json!({"completed": both}))
 }
